@@ -157,7 +157,7 @@ func eqKeys(a, b [][]byte) bool {
 
 func main() {
 	r := mc.NewRun("C17")
-	r.Rule("E5 full product: 145 endorsements (measurement tables {none,{1},{1,2}} x CA bundles {none, 1, 2, 3 PEM blocks, wrong type, trailing garbage} x SVN {0,5} x endorsed guest policy {production, none, different}, no SEV section) x 73 base policies (nil; every combination of guest policy {unset,equal,different}, measurement {unset,M1,M2,other}, minimum guest SVN {unset,<=,>}, trusted keys {none,present}, with unrelated fields set) x VMSA counts {0,1,2,9} x overwrite x allow-unspecified; TDX: base {nil, empty, other quote-body fields, any_mr_td set} x row sets x RAM {0,16,64} x overwrite; non-trivial = distinct successful derivations whose result differs from the base")
+	r.Rule("E5 full product: 149 endorsements (measurement tables {none,{1},{1,2}} x CA bundles {none, 1, 2, 3 PEM blocks, wrong type, trailing garbage} x SVN {0,5} x endorsed guest policy {production, none, different; with bit 21 / 63 set}, no SEV section) x 145 base policies (nil; every combination of guest policy {unset,equal,different,different only at bit 21/32/63}, measurement {unset,M1,M2,other}, minimum guest SVN {unset,<=,>}, trusted keys {none,present}, with unrelated fields set) x VMSA counts {0,1,2,9} x overwrite x allow-unspecified; TDX: base {nil, empty, other quote-body fields, any_mr_td set} x row sets x RAM {0,16,64} x overwrite; every derivation again after one from an endorsement that stops decoding part-way; policy commands run in place over the real file system; non-trivial = distinct successful derivations whose result differs from the base")
 	r.Assume("'placed in the result' is read as: a field that differs from the base carries the endorsement's value (with overwrite and a non-zero base guest policy the base's value may stay)")
 	ctx := output.NewContext(context.Background(), &output.Options{Quiet: true})
 	var jobs []func()
